@@ -432,6 +432,15 @@ class Path:
             self.pure -= 1
             self.solver.pop()
             del self.pc[saved_pc:]
+        if "i*" not in elem.sexpr():
+            # constant element: the sequence is a function of (element, length) -- equal lengths give equal sequences by congruence
+            s = self.engine.uf("const_seq", PV, I, PVSEQ)(elem, z3.simplify(n))
+            self.assume(z3.Implies(n >= 0, z3.Length(s) == n))
+            self.assume(z3.Implies(n <= 0, s == z3.Empty(PVSEQ)))
+            self.assume(z3.Implies(n == 1, s == z3.Unit(elem)))
+            h.seq = s
+            h.rule_inst = rule
+            return s
         key = (z3.simplify(n).sexpr(), elem.sexpr())
         memo = self.ghost.setdefault("defseq", {})
         if key in memo:
